@@ -21,7 +21,7 @@ CLAIMED = {
  'C06': ('model_checking', 'LOCAL bounded model checking of each actor in an open environment (watch mode): no acknowledgement of a run invalidated in flight, no start while the last word of a dependency is out of date, late requesters answered. (The whole-system convergence clause and the absorbed-change clause are outside this check; see DESIGN F6.)', '4 C06'),
  'C09': ('other', 'symbolic execution of the real resolver over project families with solver-chosen references and requests, compared path by path with a reference closure/cycle/kind semantics; the same through the whole of main() (MAINRUN: command line -> ids -> resolution -> what the engine is started with); native confirmation through the real binary.', '4 C09'),
  'C13': ('other', 'resolver exploration: the input of every consumer = own resources + outputs of each X.output producer bound to the producer directory; native two-run confirmation.', '4 C13'),
- 'C18': ('other', 'incremental::run writes nothing but its own record (frame condition over every explored path); entry independence: main() entered in the importing project and in the imported project resolves the same target to identical values (directory, resource paths, command directories), natively: built from the importer, skipped from its own directory.', '4 C18'),
+ 'C18': ('other', 'incremental::run writes nothing but its own record (frame condition over every explored path); entry independence: main() entered in the importing project and in the imported project resolves the same target to identical values (directory, resource paths, command directories), natively: built from the importer, skipped from its own directory, also when that directory is spelt with `..`; record files of distinct targets of a project are distinct.', '4 C18'),
  'C19': ('other', 'resolver exploration with bare and qualified spellings: accepted names, same id for both spellings, bare references resolve in the declaring project; MAINRUN: the engine is started with exactly the targets the requested spellings denote (same bare name in two projects, both orders) and their closure.', '4 C19'),
  'C20': ('model_checking', 'LOCAL bounded model checking of the aggregate actor: acknowledges exactly when the last dependency did, answers late requesters, never misdirects; SYS obligations of C04/C08/C11 range over aggregate roots.', '4 C20'),
  'C12': ('other', 'symbolic execution of the --clean branch of main(), clean.rs, work_dir.rs, delete_saved_env_state over a symbolic tree: the deletion primitives invoked = the reference set (declared outputs / matching files / own state or whole work dir), for --clean and --clean T; a symlink (to a directory, a file or nothing) below a filtered output and a declared plain output that may itself be a symlink are part of the tree; MAINRUN: --clean T forgets the state of T and of all its dependencies and of nothing else. Found F9 (fixed).', '4 C12'),
